@@ -880,7 +880,19 @@ fn classify_mani(o: &ManiObs, pristine_edits: &[MEdit], truncated: bool) -> (Str
         return ("different".into(), diffs.join(","));
     }
     if iter_err {
-        return ("err".into(), String::new());
+        // the non-ASCII check returns its error without poisoning the iterator: a caller that goes
+        // on after the error is handed the rest of the damaged transaction as an edit of its own
+        let mut seen_err = false;
+        let mut after = false;
+        if let Ok(items) = &o.iter {
+            for i in items {
+                match i {
+                    MItem::Err(_) => seen_err = true,
+                    MItem::Edit(_) => after |= seen_err,
+                }
+            }
+        }
+        return ("err".into(), if after { "edit-after-error".into() } else { String::new() });
     }
     if proper_prefix {
         return ("prefix".into(), format!("{} of {} edits", before.len(), pristine_edits.len()));
@@ -1487,6 +1499,199 @@ fn mani_regions(file: &[u8]) -> Regions {
     rs
 }
 
+// ---------------------------------------------------------------------------------------------
+// hypothesis classes: which region of the pristine file a damage sequence lies in.  The regions are
+// those of the theorems of Blue.Props.C09 (the frame of one SST block, the unchecksummed tail; the
+// header or the payload of one log frame, a padding run; one manifest line, a separator, a
+// newline).  Computed here from the harness's own parse of the bytes and by the Lean driver from the
+// model's reading of them (`Blue.DamageClass.classOf`); both print it as `cls=<class>`.
+
+/// `[lo, hi)`, theorem region (kind, instance), part
+type CRegs = Vec<(usize, usize, &'static str, usize, String)>;
+
+fn sst_cregs(file: &[u8]) -> Option<(CRegs, usize)> {
+    let n = file.len();
+    if n < 8 {
+        return None;
+    }
+    let mut t = [0u8; 8];
+    t.copy_from_slice(&file[n - 8..]);
+    let fbo = u64::from_le_bytes(t) as usize;
+    if fbo > n - 8 {
+        return None;
+    }
+    let mut frames: Vec<(usize, usize, usize)> = vec![];
+    let mut i = 0;
+    while i < fbo {
+        let start = i;
+        i += 1;
+        let len = varint(file, &mut i)? as usize;
+        if i + len > fbo {
+            return None;
+        }
+        frames.push((start, i, i + len));
+        i += len;
+    }
+    if frames.len() < 2 {
+        return None;
+    }
+    let nd = frames.len() - 2;
+    let mut rs: CRegs = vec![];
+    for (k, f) in frames.iter().enumerate() {
+        let (g, inst): (&'static str, usize) = if k < nd { ("data", k) } else if k == nd { ("index", 0) } else { ("filter", 0) };
+        rs.push((f.0, f.1, g, inst, "header".into()));
+        rs.push((f.1, f.2, g, inst, "payload".into()));
+    }
+    let filter_limit = frames[frames.len() - 1].2;
+    let mut i = fbo;
+    while i < n {
+        let start = i;
+        let tag = varint(file, &mut i)?;
+        let (num, wt) = (tag >> 3, tag & 7);
+        if num == 18 && wt == 1 {
+            rs.push((start, i, "tail", 0, "offset-tag".into()));
+            rs.push((i, (i + 8).min(n), "tail", 0, "trailer".into()));
+            i += 8;
+            continue;
+        }
+        match wt {
+            0 => {
+                varint(file, &mut i)?;
+            }
+            2 => {
+                let l = varint(file, &mut i)? as usize;
+                i += l;
+            }
+            1 => i += 8,
+            5 => i += 4,
+            _ => return None,
+        }
+        let name = match num {
+            16 => "index-meta",
+            17 => "filter-meta",
+            19 | 20 | 21 => "meta",
+            _ => "other",
+        };
+        rs.push((start, i.min(n), "tail", 0, name.into()));
+    }
+    Some((rs, filter_limit))
+}
+
+fn log_cregs(file: &[u8]) -> CRegs {
+    let mut rs: CRegs = vec![];
+    let mut i = 0;
+    while i < file.len() {
+        let h = file[i] as usize;
+        if h == 0 {
+            let end = (((i >> 20) + 1) << 20).min(file.len());
+            rs.push((i, end, "padding", i, "padding".into()));
+            i = end;
+            continue;
+        }
+        let hs = i + 1;
+        if hs + h > file.len() || file[hs] != 80 {
+            break;
+        }
+        let mut j = hs + 1;
+        let Some(size) = varint(file, &mut j) else { break };
+        let size_end = j;
+        if file.get(j) != Some(&88) {
+            break;
+        }
+        j += 1;
+        let disc_start = j;
+        let Some(disc) = varint(file, &mut j) else { break };
+        let disc_end = j;
+        if file.get(j) != Some(&101) {
+            break;
+        }
+        let kind = match disc {
+            1 => "whole",
+            2 => "first",
+            3 => "second",
+            _ => "other",
+        };
+        rs.push((i, i + 1, "header", i, "length".into()));
+        rs.push((hs, hs + 1, "header", i, "tag".into()));
+        rs.push((hs + 1, size_end, "header", i, "size".into()));
+        rs.push((size_end, size_end + 1, "header", i, "tag".into()));
+        rs.push((disc_start, disc_end, "header", i, "disc".into()));
+        rs.push((disc_end, disc_end + 1, "header", i, "tag".into()));
+        rs.push((disc_end + 1, hs + h, "header", i, "crc".into()));
+        rs.push((hs + h, hs + h + size as usize, "payload", i, kind.into()));
+        i = hs + h + size as usize;
+    }
+    rs
+}
+
+fn mani_cregs(file: &[u8]) -> CRegs {
+    let mut rs: CRegs = vec![];
+    let mut i = 0;
+    while i < file.len() {
+        let e = file[i..].iter().position(|b| *b == b'\n').map(|p| i + p).unwrap_or(file.len());
+        let line = &file[i..e];
+        if line == b"--------" {
+            rs.push((i, e, "separator", i, "separator".into()));
+        } else if line.len() > 9 {
+            rs.push((i, i + 8, "line", i, "crc".into()));
+            rs.push((i + 8, i + 9, "line", i, "action".into()));
+            rs.push((i + 9, e, "line", i, "body".into()));
+        } else {
+            rs.push((i, e, "line", i, "short".into()));
+        }
+        if e < file.len() {
+            rs.push((e, e + 1, "newline", e, "newline".into()));
+        }
+        i = e + 1;
+    }
+    rs
+}
+
+fn creg_of(rs: &CRegs, off: usize) -> Option<&(usize, usize, &'static str, usize, String)> {
+    rs.iter().find(|r| r.0 <= off && off < r.1)
+}
+
+/// `damage.<kind>.<region>[.<part>]` for one step, `damage.<kind>.<region>.multi` for several steps
+/// inside one and the same region, `damage.<kind>.several` otherwise
+fn class_of(kind: &str, rs: &CRegs, filter_limit: usize, ds: &[Dmg]) -> String {
+    let step_tok = |d: &Dmg| -> String {
+        match d {
+            Dmg::Flip(o, _) | Dmg::Over(o, _) => match creg_of(rs, *o) {
+                Some(r) => {
+                    if r.4 == r.2 {
+                        r.2.to_string()
+                    } else {
+                        format!("{}.{}", r.2, r.4)
+                    }
+                }
+                None => "outside".into(),
+            },
+            Dmg::Trunc(n) => {
+                if kind == "sst" {
+                    if *n < filter_limit { "truncate.below-filter".into() } else { "truncate.tail".into() }
+                } else {
+                    "truncate".into()
+                }
+            }
+            Dmg::App(_) => "append".into(),
+        }
+    };
+    let group = |d: &Dmg| -> Option<(&'static str, usize)> {
+        match d {
+            Dmg::Flip(o, _) | Dmg::Over(o, _) => creg_of(rs, *o).map(|r| (r.2, r.3)),
+            _ => None,
+        }
+    };
+    match ds.len() {
+        0 => "pristine".into(),
+        1 => format!("damage.{}.{}", kind, step_tok(&ds[0])),
+        _ => match group(&ds[0]) {
+            Some(g) if ds[1..].iter().all(|x| group(x) == Some(g)) => format!("damage.{}.{}.multi", kind, g.0),
+            _ => format!("damage.{}.several", kind),
+        },
+    }
+}
+
 fn build_log(batches: &[Vec<Ent>]) -> Result<Vec<u8>, String> {
     let r = guarded(Aus(|| -> Result<Vec<u8>, sst::SError> {
         let mut out: Vec<u8> = Vec::new();
@@ -1599,6 +1804,136 @@ fn boundary_batches(rng: &mut Rng) -> Option<Vec<Vec<Ent>>> {
     batches.push(vec![Ent { key: vec![], ts: 5, val: None }]);
     batches.push(vec![Ent { key: b"after".to_vec(), ts: ts + 7, val: Some(b"boundary".to_vec()) }, Ent { key: b"b".to_vec(), ts: ts + 8, val: None }]);
     Some(batches)
+}
+
+/// a log in which one append straddles the first block boundary with about 300 bytes of the block
+/// left: the writer splits it into a FIRST frame, padding up to the boundary and a SECOND frame
+fn split_batches(rng: &mut Rng) -> Option<Vec<Vec<Ent>>> {
+    const BLOCK: usize = 1 << 20;
+    let target = BLOCK - 300;
+    let fill = (rng.next() & 0xff) as u8;
+    let batch_frame_sz = |b: &[Ent]| {
+        let mut wb = WriteBatch::default();
+        for e in b {
+            wb.put(&e.key, e.ts, e.val.as_ref().unwrap()).unwrap();
+        }
+        let p = wb.approximate_size();
+        let sv = if p < 128 { 1 } else if p < 16384 { 2 } else { 3 };
+        1 + (1 + sv + 2 + 5) + p
+    };
+    let mut batches: Vec<Vec<Ent>> = vec![];
+    let mut ts = 10;
+    let mut written = 0usize;
+    loop {
+        let mut b = vec![];
+        for _ in 0..7 {
+            ts += 1;
+            b.push(Ent { key: vec![b's', (ts % 251) as u8], ts, val: Some(vec![fill; 32768]) });
+        }
+        let s = batch_frame_sz(&b);
+        if written + s + 400 > target {
+            break;
+        }
+        written += s;
+        batches.push(b);
+    }
+    // single entries of 16000 bytes until less than 30000 bytes are missing …
+    while target - written > 30000 {
+        ts += 1;
+        let e = Ent { key: vec![b's', (ts % 251) as u8], ts, val: Some(vec![fill; 16000]) };
+        written += batch_frame_sz(std::slice::from_ref(&e));
+        batches.push(vec![e]);
+    }
+    // … and one more append brings the position to within a few bytes of `target`
+    let gap = target - written;
+    if gap < 100 {
+        return None;
+    }
+    let mut done = false;
+    for vl in gap.saturating_sub(60)..gap {
+        ts += 1;
+        let e = Ent { key: vec![b'y'], ts, val: Some(vec![fill ^ 0x33; vl]) };
+        let s = batch_frame_sz(std::slice::from_ref(&e));
+        if written + s <= target && written + s + 8 > target {
+            batches.push(vec![e]);
+            done = true;
+            break;
+        }
+    }
+    if !done {
+        return None;
+    }
+    // the append that is split: three entries, about 650 bytes
+    let mut b = vec![];
+    for i in 0..3u8 {
+        ts += 1;
+        b.push(Ent { key: vec![b'p', i], ts, val: Some((0..200u32).map(|x| (x as u8) ^ fill ^ i).collect()) });
+    }
+    batches.push(b);
+    ts += 1;
+    batches.push(vec![Ent { key: b"after".to_vec(), ts, val: Some(b"split".to_vec()) }]);
+    Some(batches)
+}
+
+/// damage for the split log: every part of the FIRST and the SECOND frame and the padding between
+/// them (every model evaluation of a file of this size costs about a third of a second)
+fn split_damage(bytes: &[u8], cregs: &CRegs, thorough: bool) -> Vec<Vec<Dmg>> {
+    let mut out: Vec<Vec<Dmg>> = vec![];
+    let Some(first) = cregs.iter().find(|r| r.2 == "payload" && r.4 == "first").map(|r| r.3) else { return out };
+    let Some(second) = cregs.iter().find(|r| r.2 == "payload" && r.4 == "second").map(|r| r.3) else { return out };
+    for frame in [first, second] {
+        for r in cregs.iter().filter(|r| r.3 == frame && (r.2 == "header" || r.2 == "payload")) {
+            if r.2 == "header" {
+                let offs: Vec<usize> = if thorough { (r.0..r.1).collect() } else { vec![r.0, r.1 - 1] };
+                for o in offs {
+                    let bits: Vec<u8> = if thorough { vec![0, 2, 4, 6, 7] } else { vec![0, 6] };
+                    for b in bits {
+                        out.push(vec![Dmg::Flip(o, b)]);
+                    }
+                    if r.4 == "length" {
+                        out.push(vec![Dmg::Over(o, 0)]);
+                        out.push(vec![Dmg::Over(o, bytes[o] + 1)]);
+                    }
+                    if r.4 == "disc" {
+                        // the discriminant is outside the checksum: turn FIRST into WHOLE / SECOND
+                        // and SECOND into WHOLE / FIRST
+                        for v in [1u8, 2, 3] {
+                            if v != bytes[o] {
+                                out.push(vec![Dmg::Over(o, v)]);
+                            }
+                        }
+                    }
+                }
+            } else {
+                let mut offs = vec![r.0, r.0 + (r.1 - r.0) / 2, r.1 - 1];
+                if thorough {
+                    offs.extend((r.0..r.1).step_by(37));
+                }
+                offs.sort();
+                offs.dedup();
+                for o in offs {
+                    out.push(vec![Dmg::Flip(o, 3)]);
+                    out.push(vec![Dmg::Over(o, !bytes[o])]);
+                }
+                out.push(vec![Dmg::Over(r.0, !bytes[r.0]), Dmg::Flip(r.1 - 1, 0)]);
+            }
+        }
+    }
+    // the padding between the two frames
+    if let Some(p) = cregs.iter().find(|r| r.2 == "padding") {
+        let offs: Vec<usize> = if thorough { (p.0..p.1).collect() } else { vec![p.0, p.1 - 1] };
+        for o in offs {
+            out.push(vec![Dmg::Over(o, 1)]);
+            out.push(vec![Dmg::Flip(o, 7)]);
+        }
+        out.push(vec![Dmg::Trunc(p.0)]);
+        out.push(vec![Dmg::Trunc(p.1)]);
+    }
+    let sp = cregs.iter().find(|r| r.2 == "payload" && r.4 == "second").unwrap();
+    out.push(vec![Dmg::Trunc(sp.0)]);
+    out.push(vec![Dmg::Trunc(sp.0 + (sp.1 - sp.0) / 2)]);
+    out.push(vec![Dmg::Trunc(sp.1)]);
+    out
 }
 
 const MANI_CHARS: &[u8] = b"abcxyz019_./+- ";
@@ -1727,9 +2062,35 @@ fn damage_list(rng: &mut Rng, bytes: &[u8], kind: &str, rs: &Regions, thorough: 
         if let Some(fb) = rs.iter().find(|r| r.2.starts_with("final")).map(|r| r.0) {
             // the whole final block again
             out.push(vec![Dmg::App(bytes[fb..].to_vec())]);
+            // … and a final block of its own after the old trailer: the old final block with one
+            // byte of the setsum changed, and a trailer that points at it (no checksum is needed
+            // to make it: the final block carries none)
+            if let Some(m) = rs.iter().find(|r| r.2 == "final.meta") {
+                let mut fbk = bytes[fb..n - 8].to_vec();
+                let at = m.0 - fb + 5;
+                if at < fbk.len() {
+                    fbk[at] ^= 0x40;
+                    fbk.extend_from_slice(&(n as u64).to_le_bytes());
+                    out.push(vec![Dmg::App(fbk)]);
+                }
+            }
         }
     }
     if kind == "log" {
+        // whole frames overwritten with zeros (a lost sector reads as zeros): the last frame, the
+        // first frame, and everything from the last frame's payload to the end of the file
+        let starts: Vec<usize> = rs.iter().filter(|r| r.2 == "header-length").map(|r| r.0).collect();
+        let zero = |a: usize, b: usize| -> Vec<Dmg> { (a..b).filter(|o| bytes[*o] != 0).map(|o| Dmg::Over(o, 0)).collect() };
+        if let Some(last) = starts.last() {
+            out.push(zero(*last, n));
+            if let Some(p) = rs.iter().filter(|r| r.2 == "payload").last() {
+                out.push(zero(p.0, n));
+            }
+        }
+        if starts.len() >= 2 {
+            out.push(zero(starts[0], starts[1]));
+        }
+        out.retain(|ds| !ds.is_empty());
         // a frame header that claims a payload far larger than anything the file holds
         let mut sizes: Vec<u64> = vec![1 << 26, sst::TABLE_FULL_SIZE as u64 + 1];
         if thorough {
@@ -1755,6 +2116,11 @@ fn damage_list(rng: &mut Rng, bytes: &[u8], kind: &str, rs: &Regions, thorough: 
         }
     }
     if kind == "mani" {
+        // two adjacent bytes of an item line's payload become one two-byte UTF-8 character: the line
+        // is a string but not ASCII (the one error of ManifestIterator that does not poison it)
+        for r in rs.iter().filter(|r| r.2 == "body" && r.1 - r.0 >= 2).take(3) {
+            out.push(vec![Dmg::Over(r.0, 0xc3), Dmg::Over(r.0 + 1, 0xa9)]);
+        }
         out.push(vec![Dmg::App(b"--------\n".to_vec())]);
         out.push(vec![Dmg::App(b"--------".to_vec())]);
         out.push(vec![Dmg::App(b"\n".to_vec())]);
@@ -1832,6 +2198,14 @@ fn boundary_damage(bytes: &[u8], frames: &[(usize, usize, usize)], thorough: boo
     }
     for l in [BLOCK - 21, BLOCK - 20, BLOCK - 2, BLOCK - 1, BLOCK, bytes.len() - 1] {
         out.push(vec![Dmg::Trunc(l)]);
+    }
+    // the tiny frame before the boundary overwritten with zeros byte for byte: to the reader this
+    // is padding (the trigger of the format limit `CLASS_ZEROED_FRAME`); and all but its last byte
+    if nf >= 2 {
+        let (o, h, sz) = frames[nf - 2];
+        let end = o + 1 + h + sz;
+        out.push((o..end).filter(|x| bytes[*x] != 0).map(|x| Dmg::Over(x, 0)).collect());
+        out.push((o..end - 1).filter(|x| bytes[*x] != 0).map(|x| Dmg::Over(x, 0)).collect());
     }
     out
 }
@@ -1921,6 +2295,9 @@ fn run_children(jobs_path: &Path, njobs: usize, dir: &Path, rec: &mut Recorder) 
 struct PFile {
     spec: FileSpec,
     regions: Regions,
+    /// the regions of the hypothesis classes, and (SST) the end of the filter block
+    cregs: CRegs,
+    filter_limit: usize,
     /// log: frames (offset of the length byte, header length, payload length)
     frames: Vec<(usize, usize, usize)>,
     what: String,
@@ -1928,6 +2305,36 @@ struct PFile {
 
 const CLASS_D10: &str = "sst-final-block-unchecksummed-metadata";
 const CLASS_D3: &str = "log-replay-unwraps-reader-error";
+/// ManifestIterator returned an edit after an error (as found, its non-ASCII check did not poison
+/// it; repaired by fixes/mani-nonascii-poisons.diff): the edit is the rest of the damaged transaction
+const CLASS_NONASCII: &str = "mani-iterator-not-poisoned-after-non-ascii-line";
+
+/// the trigger of `CLASS_NONASCII`, a predicate on the input: some line of the damaged file (as
+/// `BufRead::lines` splits it) is valid UTF-8 and not ASCII, and a later line exists
+fn has_utf8_non_ascii_line(bytes: &[u8]) -> bool {
+    let mut lines: Vec<&[u8]> = bytes.split(|b| *b == b'\n').collect();
+    if lines.last().map(|l| l.is_empty()).unwrap_or(false) {
+        lines.pop();
+    }
+    let n = lines.len();
+    lines.iter().enumerate().any(|(i, l)| i + 1 < n && !l.is_ascii() && std::str::from_utf8(l).is_ok())
+}
+
+/// a whole log frame that lies within HEADER_MAX_SIZE + 1 bytes of the next block boundary is
+/// overwritten with zeros: the reader takes the zeros for padding (frames carry no sequence numbers)
+const CLASS_ZEROED_FRAME: &str = "log-frame-zeroed-inside-padding-window";
+
+/// the trigger of `CLASS_ZEROED_FRAME`, a predicate on the input: after the damage every byte of
+/// some frame that starts at most HEADER_MAX_SIZE + 1 bytes before a block boundary and ends at or
+/// before it is zero
+fn zeroed_frame_in_padding_window(f: &PFile, ds: &[Dmg]) -> bool {
+    let b = damaged(&f.spec.bytes, ds);
+    f.frames.iter().any(|(o, h, sz)| {
+        let end = o + 1 + h + sz;
+        let nb = ((o >> 20) + 1) << 20;
+        end <= nb && nb - (o + 1) <= 19 && end <= b.len() && b[*o..end].iter().all(|x| *x == 0)
+    })
+}
 
 fn dmg_kind(d: &Dmg) -> &'static str {
     match d {
@@ -1953,6 +2360,13 @@ fn verdict(f: &PFile, ds: &[Dmg], r: &JobResult) -> Verdict {
     let detail = |r: &JobResult| format!("{} kind={} regions={} damage={} file={} bytes ({})", r.detail, f.spec.kind, regs.join("+"), seq_tok(ds), f.spec.bytes.len(), f.what);
     let damaged_len = damaged(&f.spec.bytes, ds).len();
     match r.class.as_str() {
+        "err" if f.spec.kind == "mani" && r.detail.contains("edit-after-error") => {
+            if has_utf8_non_ascii_line(&damaged(&f.spec.bytes, ds)) {
+                Verdict::Fail { class: CLASS_NONASCII.into(), detail: detail(r) }
+            } else {
+                Verdict::Fail { class: "unclassified-different".into(), detail: format!("an edit after an error: {}", detail(r)) }
+            }
+        }
         "same" | "err" | "err-partial" | "same-resized" | "same-plus-empty-edit" | "prefix" | "pristine" => {
             if r.maxreq > alloc_bound(damaged_len.max(f.spec.bytes.len())) {
                 Verdict::Fail { class: "large-allocation".into(), detail: format!("largest single allocation request {} bytes; {}", r.maxreq, detail(r)) }
@@ -1969,7 +2383,9 @@ fn verdict(f: &PFile, ds: &[Dmg], r: &JobResult) -> Verdict {
             // unknown field).  The result class `meta-different` already says that the open, both
             // walks and every load are unchanged; the trigger is that the damage reaches the
             // unchecksummed tail at all.
-            let confined = regs.iter().any(|x| x.starts_with("final.") || x == "trailer");
+            // (bytes appended to an SST are the new trailer and the end of the new final block: the
+            // code reads both from the end of the file)
+            let confined = regs.iter().any(|x| x.starts_with("final.") || x == "trailer" || (f.spec.kind == "sst" && x == "append"));
             if confined {
                 Verdict::Fail { class: CLASS_D10.into(), detail: detail(r) }
             } else {
@@ -1979,6 +2395,7 @@ fn verdict(f: &PFile, ds: &[Dmg], r: &JobResult) -> Verdict {
         "panic-replay-after-reader-error" => Verdict::Fail { class: CLASS_D3.into(), detail: detail(r) },
         // (a log whose reader steps over a frame with a zeroed header-length byte close to a block
         // boundary lands here: D-11, repaired in `LogIterator::true_up`)
+        "different" if f.spec.kind == "log" && r.detail.starts_with("drain") && zeroed_frame_in_padding_window(f, ds) => Verdict::Fail { class: CLASS_ZEROED_FRAME.into(), detail: detail(r) },
         "different" => Verdict::Fail { class: "unclassified-different".into(), detail: detail(r) },
         "panic" => Verdict::Fail { class: "unclassified-panic".into(), detail: detail(r) },
         c => Verdict::Fail { class: c.to_string(), detail: detail(r) },
@@ -2041,7 +2458,11 @@ pub fn run(args: &Args) {
         }
         let what = what.replacen("0 entries", &format!("{} entries", es.len()), 1);
         rec.add("sst.file_bytes", bytes.len() as u64);
-        files.push(PFile { spec: FileSpec { id: files.len(), kind: "sst".into(), bytes, probes, batch_ends: vec![] }, regions: rs, frames: vec![], what });
+        let Some((cregs, filter_limit)) = sst_cregs(&bytes) else {
+            rec.count("sst.layout-not-understood");
+            continue;
+        };
+        files.push(PFile { spec: FileSpec { id: files.len(), kind: "sst".into(), bytes, probes, batch_ends: vec![] }, regions: rs, cregs, filter_limit, frames: vec![], what });
     }
     for i in 0..n_log {
         let mut rng = Rng::for_case(args.seed, 2, i);
@@ -2062,7 +2483,8 @@ pub fn run(args: &Args) {
             ends.push(c);
         }
         rec.add("log.file_bytes", bytes.len() as u64);
-        files.push(PFile { spec: FileSpec { id: files.len(), kind: "log".into(), bytes, probes: vec![], batch_ends: ends }, regions: rs, frames, what: format!("{} batches", batches.len()) });
+        let cregs = log_cregs(&bytes);
+        files.push(PFile { spec: FileSpec { id: files.len(), kind: "log".into(), bytes, probes: vec![], batch_ends: ends }, regions: rs, cregs, filter_limit: 0, frames, what: format!("{} batches", batches.len()) });
     }
     // the log that crosses a block boundary
     let boundary_id = {
@@ -2078,9 +2500,12 @@ pub fn run(args: &Args) {
                     }
                     rec.count("log.boundary-file");
                     let nb_frames = frames.len();
+                    let cregs = log_cregs(&bytes);
                     files.push(PFile {
                         spec: FileSpec { id: files.len(), kind: "log".into(), bytes, probes: vec![], batch_ends: ends },
                         regions: rs,
+                        cregs,
+                        filter_limit: 0,
                         frames,
                         what: format!("{} appends; the last but one frame (18 bytes) starts 20 bytes before the 1 MiB block boundary, the last on it", nb_frames),
                     });
@@ -2097,6 +2522,48 @@ pub fn run(args: &Args) {
             }
         }
     };
+    // the log in which one append is split across the block boundary (FIRST / SECOND frames)
+    let split_id = {
+        let mut rng = Rng::for_case(args.seed, 5, 0);
+        match split_batches(&mut rng).and_then(|b| build_log(&b).ok().map(|x| (b, x))) {
+            Some((batches, bytes)) => match log_regions(&bytes) {
+                Some((rs, frames)) => {
+                    let cregs = log_cregs(&bytes);
+                    let has = |k: &str| cregs.iter().any(|r| r.2 == "payload" && r.4 == k);
+                    if has("first") && has("second") && cregs.iter().any(|r| r.2 == "padding") {
+                        let mut ends = vec![];
+                        let mut c = 0;
+                        for b in &batches {
+                            c += b.len();
+                            ends.push(c);
+                        }
+                        rec.count("log.split-file");
+                        let nfr = frames.len();
+                        files.push(PFile {
+                            spec: FileSpec { id: files.len(), kind: "log".into(), bytes, probes: vec![], batch_ends: ends },
+                            regions: rs,
+                            cregs,
+                            filter_limit: 0,
+                            frames,
+                            what: format!("{} frames; the last but one append is split across the 1 MiB block boundary into a FIRST frame, padding and a SECOND frame", nfr),
+                        });
+                        Some(files.len() - 1)
+                    } else {
+                        rec.count("log.split-layout-not-as-planned");
+                        None
+                    }
+                }
+                None => {
+                    rec.count("log.split-layout-not-understood");
+                    None
+                }
+            },
+            None => {
+                rec.count("log.split-generation-gave-up");
+                None
+            }
+        }
+    };
     for i in 0..n_mani {
         let mut rng = Rng::for_case(args.seed, 4, i);
         let ne = rng.range(3, if thorough { 8 } else { 5 }) as usize;
@@ -2106,7 +2573,8 @@ pub fn run(args: &Args) {
         };
         let rs = mani_regions(&bytes);
         rec.add("mani.file_bytes", bytes.len() as u64);
-        files.push(PFile { spec: FileSpec { id: files.len(), kind: "mani".into(), bytes, probes: vec![], batch_ends: vec![] }, regions: rs, frames: vec![], what: format!("{} edits", ne) });
+        let cregs = mani_cregs(&bytes);
+        files.push(PFile { spec: FileSpec { id: files.len(), kind: "mani".into(), bytes, probes: vec![], batch_ends: vec![] }, regions: rs, cregs, filter_limit: 0, frames: vec![], what: format!("{} edits", ne) });
     }
 
     // ---- jobs --------------------------------------------------------------------------------
@@ -2115,7 +2583,13 @@ pub fn run(args: &Args) {
     for f in &files {
         jobs.push(Job { file: f.spec.id, ds: vec![] });
         let mut rng = Rng::for_case(args.seed, 10, f.spec.id as u64);
-        let list = if Some(f.spec.id) == boundary_id { boundary_damage(&f.spec.bytes, &f.frames, thorough) } else { damage_list(&mut rng, &f.spec.bytes, &f.spec.kind, &f.regions, thorough) };
+        let list = if Some(f.spec.id) == boundary_id {
+            boundary_damage(&f.spec.bytes, &f.frames, thorough)
+        } else if Some(f.spec.id) == split_id {
+            split_damage(&f.spec.bytes, &f.cregs, thorough)
+        } else {
+            damage_list(&mut rng, &f.spec.bytes, &f.spec.kind, &f.regions, thorough)
+        };
         for ds in list {
             jobs.push(Job { file: f.spec.id, ds });
         }
@@ -2216,7 +2690,12 @@ pub fn run(args: &Args) {
         } else {
             format!("dmg d {} {}", f.spec.id, seq_tok(&j.ds))
         };
-        let obs = if pristine && r.class != "abort-or-oom" && r.class != "hang" { format!("file {} {} {}", f.spec.kind, f.spec.bytes.len(), r.obs) } else { r.obs.clone() };
+        let cls = class_of(&f.spec.kind, &f.cregs, f.filter_limit, &j.ds);
+        let obs = if pristine {
+            if r.class != "abort-or-oom" && r.class != "hang" { format!("file {} {} {}", f.spec.kind, f.spec.bytes.len(), r.obs) } else { r.obs.clone() }
+        } else {
+            format!("cls={} {}", cls, r.obs)
+        };
         let kinds: Vec<&str> = j.ds.iter().map(dmg_kind).collect();
         let kind_tok = if kinds.len() == 1 { kinds[0].to_string() } else if kinds.is_empty() { "pristine".into() } else { "sequence".into() };
         let regs = job_regions(f, &j.ds);
@@ -2227,6 +2706,14 @@ pub fn run(args: &Args) {
             verdict(f, &j.ds, r)
         };
         rec.count(&format!("{}.{}.{}", f.spec.kind, kind_tok, r.class));
+        if !pristine {
+            // which theorem's hypothesis class the case falls in, and what came of it
+            rec.count(&format!("class.{}", cls));
+            rec.count(&format!("class.{}.{}", cls, r.class));
+            if r.detail.contains("edit-after-error") {
+                rec.count("mani.iterator-returns-an-edit-after-an-unpoisoned-error");
+            }
+        }
         if kind_tok == "flip" || kind_tok == "overwrite" {
             rec.count(&format!("{}.region.{}.{}", f.spec.kind, reg_tok, r.class));
         }
